@@ -168,6 +168,10 @@ fn emit_case(out: &mut Out, rng: &mut Rng, models: &[TableDef], history: &[Migra
             });
         }
         let prefixed = np.clone().with_prefix("app_").actions.gs();
+        let validate_raw = match validate_migration_plan(&np) {
+            Ok(()) => "(Ok tt)".to_string(),
+            Err(e) => format!("(Err {})", VErr(&e).gs()),
+        };
 
         // ---- oracles on the implementation ----
         let mut oracles = serde_json::Map::new();
@@ -303,6 +307,7 @@ fn emit_case(out: &mut Out, rng: &mut Rng, models: &[TableDef], history: &[Migra
                 &Raw(fill_g),
                 &Raw(format!("[{}]", validate.join("; "))),
                 &Raw(prefixed),
+                &Raw(validate_raw),
             ],
         );
         let nact = plan.as_ref().map(|p| p.actions.len()).unwrap_or(0);
